@@ -14,6 +14,7 @@ import (
 	"fmt"
 	"os"
 	"path/filepath"
+	"strings"
 
 	"github.com/sarchlab/mgpusim/v4/amd/insts"
 
@@ -161,7 +162,15 @@ func main() {
 	canon := canonicalFiles()
 	repo := repoDir()
 	shipped := shippedFiles(repo)
-	seed, _ := batch.SeedTier()
+	seed, tier := batch.SeedTier()
+	// index space: canonical files | shipped files | nSyn generated files | history cases
+	nSyn, nHistSeeded := 400, 320
+	if tier == "thorough" {
+		nSyn, nHistSeeded = 50000, 8000
+	}
+	plan := planHistory(repo, shipped, canon)
+	histBase := len(canon) + len(shipped) + nSyn
+	nHist := plan.fixed() + nHistSeeded
 	fileAt := func(sd int64, j int) *fileSpec { return genFile(batch.Rand("C13", sd, "files").ForkN("f", j), j) }
 	run := func(rec vlib.Recorder, sd int64, i int) {
 		switch {
@@ -169,8 +178,10 @@ func main() {
 			runSynthetic(rec, canon[i], i)
 		case i < len(canon)+len(shipped):
 			checkShipped(rec, repo, shipped[i-len(canon)], i)
-		default:
+		case i < histBase:
 			runSynthetic(rec, fileAt(sd, i-len(canon)-len(shipped)), i)
+		default:
+			runHistory(rec, plan, sd, i, i-histBase)
 		}
 	}
 	describe := func(i int) any {
@@ -179,8 +190,10 @@ func main() {
 			return canon[i]
 		case i < len(canon)+len(shipped):
 			return shipped[i-len(canon)]
+		case i < histBase:
+			return fileAt(seed, i-len(canon)-len(shipped))
 		}
-		return fileAt(seed, i-len(canon)-len(shipped))
+		return plan.describe(seed, i-histBase)
 	}
 
 	if lo, hi, ok := batch.ChildRange(); ok {
@@ -194,7 +207,8 @@ func main() {
 			var rf struct {
 				Seed    int64 `json:"seed"`
 				Witness struct {
-					CaseIndex *int `json:"case_index"`
+					CaseIndex    *int `json:"case_index"`
+					HistoryIndex *int `json:"history_index"`
 				} `json:"witness"`
 			}
 			if err != nil || json.Unmarshal(b, &rf) != nil || rf.Witness.CaseIndex == nil {
@@ -205,8 +219,13 @@ func main() {
 			c.Seed = rf.Seed
 			d, cleanup := vlib.Scratch("C13-replay")
 			_ = os.Chdir(d)
-			fmt.Printf("[C13] replaying case %d (seed %d)\n", *rf.Witness.CaseIndex, rf.Seed)
-			run(c, rf.Seed, *rf.Witness.CaseIndex)
+			if rf.Witness.HistoryIndex != nil { // history cases are addressed by their own index (independent of the tier's case counts)
+				fmt.Printf("[C13] replaying history case %d (seed %d)\n", *rf.Witness.HistoryIndex, rf.Seed)
+				runHistory(c, plan, rf.Seed, *rf.Witness.CaseIndex, *rf.Witness.HistoryIndex)
+			} else {
+				fmt.Printf("[C13] replaying case %d (seed %d)\n", *rf.Witness.CaseIndex, rf.Seed)
+				run(c, rf.Seed, *rf.Witness.CaseIndex)
+			}
 			_ = os.Chdir("/")
 			cleanup()
 			if c.NumNewViolations() > 0 {
@@ -218,14 +237,33 @@ func main() {
 	}
 
 	c := vlib.Start("C13")
-	nSyn := c.N(400, 50000)
-	n := len(canon) + len(shipped) + nSyn
+	if c.Tier != tier || c.Seed != seed {
+		c.Inconclusive("harness bug: tier/seed read differently by vlib.Start and batch.SeedTier")
+	}
+	n := histBase + nHist
+	// the race detector (RACE marker file) must end the child at the first report, inside the case that raced
+	_ = os.Setenv("GORACE", "halt_on_error=1 exitcode=66")
 
 	per := 32
 	if c.Thorough() {
-		per = 1000
+		per = 250
 	}
 	batch.Run(c, batch.Opts{N: n, First: len(canon), PerChild: per, OnCrash: func(cr batch.Crash) {
+		if cr.Index >= histBase {
+			kind, _ := plan.kindOf(cr.Index - histBase)
+			key, what := "C13|history|loader-exits-process", "inside a sequence of loads of well-formed code objects (log.Fatal in the loader?)"
+			if strings.HasPrefix(kind, "concurrent") {
+				key = "C13|history|concurrent|loader-exits-process"
+				what = "while several goroutines were loading well-formed code objects from memory no other goroutine writes"
+				if strings.Contains(cr.Tail, "DATA RACE") || cr.ExitCode == 66 { // 66 = GORACE exitcode set below
+					key = "C13|history|concurrent|data-race-in-loader"
+					what += " (the race detector reported a data race)"
+				}
+			}
+			c.Violation(key, fmt.Sprintf("the process exited with code %d %s", cr.ExitCode, what),
+				map[string]any{"case_index": cr.Index, "history_index": cr.Index - histBase, "case": describe(cr.Index), "output_tail": cr.Tail})
+			return
+		}
 		c.Violation("C13|loader-exits-process", fmt.Sprintf("the process exited with code %d while loading a well-formed code object (log.Fatal in the loader?)", cr.ExitCode),
 			map[string]any{"case_index": cr.Index, "case": describe(cr.Index), "output_tail": cr.Tail})
 	}})
@@ -235,7 +273,13 @@ func main() {
 
 	c.Finish(vlib.FinishOpts{
 		Rule: "case = one code-object file (synthetic ELF64 written from a description, or a shipped .hsaco) x every kernel in it; synthetic files are generated from " +
-			"VERIF_SEED plus a fixed canonical battery; non-trivial = distinct file with >= 2 kernels or a non-zero .text address or instruction bytes that imitate a header prefix",
+			"VERIF_SEED plus a fixed canonical battery; non-trivial = distinct file with >= 2 kernels or a non-zero .text address or instruction bytes that imitate a header prefix. " +
+			"History cases (one case = many loads in one process, every load judged when it returns against the oracle of the bytes the loader was given at that moment): all shipped files through ONE reused " +
+			"[]byte backing array; the files of one benchmark directory (gcn3 and gfx942 builds define the same kernel names) plus in-memory patched copies; generated files plus variants that differ in one " +
+			"descriptor/header field, one instruction word, the code length, the layout, or swapped kernel names, plus another file defining the same kernel names; in-place patches of the image a previous " +
+			"load has seen; results the caller overwrites (every exported field, every Data byte) before loading again; FromFS over one rewritten path, FromELF over a fresh and a shared *elf.File; " +
+			"8 goroutines loading at once (race detector on). A history load discriminates when the same backing array held other contents for the same kernel name at an earlier load " +
+			"(counter history_reused_loads_contents_changed_for_kernel)",
 		Assumptions: []string{
 			"ground truth for a synthetic file is its description; for a shipped file the harness' own extractor (debug/elf, amd_kernel_code_t and kernel-descriptor offsets from the LLVM AMDGPU usage documentation)",
 			"the loader's documented V5 normalisations are part of the contract: rsrc2 bit 0 cleared, user SGPR count 2 when kernarg_size > 0, workgroup-id X/Y forced on, work-item-id field at least 1, " +
@@ -243,6 +287,11 @@ func main() {
 			"V2/V3: the 256-byte header is stripped from Data and the entry offset is reported relative to Data (0); Version is reported as 3 for every amd_kernel_code_t",
 			"a kernel that has both a genuine header and a descriptor is descriptor based (the property's precedence rule): Data keeps the header bytes",
 			"genuine headers use machine_version_major 7..9 and entry offset 256 (what the supported targets emit); header-less code never carries a complete header signature unless a descriptor exists",
+			"history: a load is judged by what it returns at the time it returns. A result whose Data is a window of the caller's input buffer (not what the code does today) would be tolerated: a later rewrite of that " +
+				"buffer changing it is only counted (note_* counters). Not tolerated: a result that depends on earlier loads, a result that changes during later loads without the caller touching it or its input, " +
+				"two results of separate loads sharing storage (the API documents no sharing), a data race between concurrent loads of memory nobody writes",
+			"history oracle: generated images and their variants - the (modified) description; shipped and patched shipped images - the harness' debug/elf extractor run over the current bytes. " +
+				"The 'descriptor words read 4 bytes early' model of the fixed known finding is not applied in history comparisons",
 		},
 		MinNontrivial: 200,
 		MinCounters: map[string]int64{
@@ -251,6 +300,13 @@ func main() {
 			"kernels_mimic_complete-signature": 10, "kernels_mimic_signature-10-bytes": 10, "kernels_mimic_all-but-entry-offset": 10, "kernels_mimic_all-but-machine-version": 10,
 			"kernels_with_metadata_symbols": 50, "metamorphic_symbol_reorder": 500, "metamorphic_other_kernels_removed": 300,
 			"synthetic_files_text_addr_nonzero": 150, "synthetic_files_multi_kernel": 150, "fields_compared": 20000,
+			// history
+			"history_cases": 300, "history_cases_shipped-walker": 1, "history_cases_shipped-group": 15, "history_cases_synthetic-canonical": 7, "history_cases_synthetic-seeded": 200,
+			"history_cases_concurrent-canonical": 2, "history_cases_concurrent-seeded": 20,
+			"history_loads": 50000, "history_loads_reused-buffer": 30000, "history_reused_loads_contents_changed_for_kernel": 10000, "history_reused_loads_code_object_version_changed": 500,
+			"history_in_place_patches": 3000, "history_loads_after_in_place_patch": 5000, "history_results_mutated": 1000, "history_loads_after_result_mutation": 1000,
+			"history_loads_fresh-slice": 2000, "history_loads_reused-path": 2000, "history_loads_shared-elf-file": 3000, "history_loads_elf-over-reused-buffer": 1000,
+			"history_concurrent_loads": 8000, "history_concurrent_goroutines": 150, "history_earlier_results_rechecked": 40000, "history_autodetect_loads": 300,
 		},
 	})
 }
